@@ -6,6 +6,8 @@
 import AllianceProofs.ScopeCheck
 import AllianceProofs.IndexHistory
 import AllianceProofs.RedelHistory
+import AllianceProofs.UndelRoundTrip
+import AllianceProofs.PayoutLive
 namespace Alliance
 
 instance decExistsSome {α : Type} (o : Option α) (P : α → Prop) [∀ a, Decidable (P a)] : Decidable (∃ a, o = some a ∧ P a) :=
@@ -52,6 +54,9 @@ instance (rs : List (RedelKey × Redel)) (q : List (Time × List Redel)) (ix : L
 
 instance (w : World) : Decidable (RX w) := by unfold RX; exact inferInstance
 
+instance (w : World) : Decidable (NonnegQ w) := by unfold NonnegQ; exact inferInstance
+instance (w : World) : Decidable (NE w) := by unfold NE NEQ; exact inferInstance
+
 /-- predictions of `step_ix` and `step_rx` for an observed successful step `pre → post`: each invariant that holds on the
     observed pre-state holds on the observed post-state. A pre-state on which an invariant fails is reported too: every
     state of the real module is reachable from the empty stores, where both hold (`reach_ix`, `reach_rx`). -/
@@ -59,6 +64,10 @@ def theoremCheckInv (pre post : World) : List (String × String) :=
   (if decide (IX pre) then (if decide (IX post) then [] else [("theorem.INV-I", "step_ix: index/queue agreement lost on the post-state")])
    else [("theorem.INV-I", "reach_ix: index/queue agreement fails on the observed pre-state")]) ++
   (if decide (RX pre) then (if decide (RX post) then [] else [("theorem.INV-R", "step_rx: redelegation stores' agreement lost on the post-state")])
-   else [("theorem.INV-R", "reach_rx: redelegation stores' agreement fails on the observed pre-state")])
+   else [("theorem.INV-R", "reach_rx: redelegation stores' agreement fails on the observed pre-state")]) ++
+  (if decide (NonnegQ pre) then (if decide (NonnegQ post) then [] else [("theorem.INV-I", "step_nq: a pending unbonding balance is negative on the post-state")])
+   else [("theorem.INV-I", "reach_nq: a pending unbonding balance is negative on the observed pre-state")]) ++
+  (if decide (NE pre) then (if decide (NE post) then [] else [("theorem.INV-I", "step_ixn: an empty unbonding bucket on the post-state")])
+   else [("theorem.INV-I", "reach_ixn: an empty unbonding bucket on the observed pre-state")])
 
 end Alliance
